@@ -9,7 +9,7 @@ import os, sys, json, tempfile, shutil, itertools, hashlib
 import vlib, e2e, sync_e2e
 from sync_e2e import T0
 
-THEOREMS = ['C01_mirror', 'C01_mirror_executable', 'C01_link_text', 'C01_utf8_text_is_in_domain', 'C01_table']
+THEOREMS = ['C01_mirror', 'C01_mirror_executable', 'C01_link_text', 'C01_utf8_text_is_in_domain', 'C01_table', 'C01_mirror_unconditional', 'C01_mirror_walked', 'C01_walked_listing_exists']
 
 
 def components(text):
